@@ -24,7 +24,7 @@ META = {
         "alphabet members only",
         "reference vf/ref/edges.py, vf/ref/geom.py trusted; SE(3) rotational error accepted up to one global sign per evaluation; SE(2) angular error compared modulo 2 pi and required in [-pi, pi]",
     ],
-    "required_classes": ["single:odo:SE2", "single:odo:SE3", "single:odo:R2", "single:odo:R3", "single:lm:SE2", "single:lm:SE3", "single:lm:R2", "single:lm:R3", "graph", "biggraph", "graph:fixed_vertices", "consistency", "linearity", "exact", "omega:spd", "offset_rotated", "w_negative"],
+    "required_classes": ["single:odo:SE2", "single:odo:SE3", "single:odo:R2", "single:odo:R3", "single:lm:SE2", "single:lm:SE3", "single:lm:R2", "single:lm:R3", "graph", "biggraph", "graph:fixed_vertices", "consistency", "linearity", "exact", "omega:spd", "omega:int", "omega:float32", "omega:indefinite", "subclass_measurement", "graph:nonpositive_information", "offset_rotated", "w_negative"],
     "bounds": {"quick": "C01 quick configuration sets x 3 information matrices; edge multisets of size <= 3", "thorough": "C01 thorough sets x 8 information matrices; multisets <= 4"},
 }
 
@@ -83,6 +83,9 @@ def _run_chunk(chunk, tier, seed):
             for ms in itertools.combinations_with_replacement(range(14), k):
                 for fx in ("none", "all", "alt"):
                     _do(acc, {"t": "graph", "edges": list(ms), "seed": seed, "fixed": fx})
+                # symmetric but not positive information on some / all edges: the graph's chi2 is still the plain sum
+                for osign in ("negalt", "neg"):
+                    _do(acc, {"t": "graph", "edges": list(ms), "seed": seed, "fixed": "none", "osign": osign})
     elif typ == "biggraph":
         # the sum over the edges for edge counts around powers of two (blocked / chunked summation shows only there)
         for ne in (1, 2, 31, 32, 33, 63, 64, 65, 127, 128, 129, 200, 256):
@@ -276,6 +279,47 @@ def _eval_inner(case):
                     msgs.append("chi2 with Omega=%s changes from %.17g to %.17g when the vertices are marked fixed=%r" % (name, c2, c2f, flags))
             for v in e.vertices:
                 v.fixed = False
+        # information matrices of another dtype / definiteness: integer-typed, single precision (values exactly representable),
+        # symmetric indefinite and negative definite ("any symmetric information matrix": chi2 is still e^T Omega e)
+        if not msgs:
+            ispd = [[float(2 + i if i == j else (1 if abs(i - j) == 1 else 0)) for j in range(n)] for i in range(n)]
+            indef = [[(-1.0) ** i * (i + 1.0) if i == j else 0.5 for j in range(n)] for i in range(n)]
+            for name, om, dt in (("int", ispd, int), ("float32", ispd, np.float32), ("indefinite", indef, float), ("negdef", [[-x for x in r_] for r_ in ispd], float)):
+                classes.append("omega:" + name)
+                e.information = np.array(om, dtype=dt)
+                c2 = float(e.calc_chi2())
+                nops += 1
+                onorm = max(abs(x) for row in om for x in row) * n * n
+                en2 = sum(x * x for x in ref)
+                tolc = 4 * TOL * (onorm * (sc * math.sqrt(en2) + sc * sc * TOL)) + 1e-300
+                refs = [R.chi2(c, om) for c in cands]
+                d = min(abs(c2 - r) for r in refs)
+                ratio = max(ratio, d / tolc)
+                if not d <= tolc:
+                    msgs.append("chi2 with a %s information matrix: impl %.17g vs reference %r (|diff| %.3g > %.3g)" % (name, c2, refs, d, tolc))
+        # the measurement (and the offset) may be instances of a user subclass of the pose class (e.g. a pose carrying a time stamp)
+        if not msgs:
+            kind_m = kind if case["edge"] == "odo" else I.POINT_OF[kind]
+            sub_m = type("Stamped" + I.CLS[kind_m].__name__, (I.CLS[kind_m],), {})
+            keep_est, keep_off = e.estimate, getattr(e, "offset", None)
+            e.estimate = np.asarray(keep_est).view(sub_m)
+            if case["edge"] == "lm":
+                sub_o = type("Stamped" + I.CLS[kind].__name__, (I.CLS[kind],), {})
+                e.offset = np.asarray(keep_off).view(sub_o)
+            ok_valid = True
+            try:
+                ok_valid = bool(e.is_valid())
+            except Exception:
+                ok_valid = False
+            if ok_valid:
+                classes.append("subclass_measurement")
+                gs = [float(x) for x in np.asarray(e.calc_error(), dtype=float).ravel()]
+                nops += 1
+                if max(abs(a - b) for a, b in zip(gs, gotl)) > 1e-15 * sc:
+                    msgs.append("error changes from %r to %r when the measurement / offset are instances of a subclass of the pose class" % (gotl, gs))
+            e.estimate = keep_est
+            if case["edge"] == "lm":
+                e.offset = keep_off
         # history on the SAME edge object: the measurement (and the offset) are replaced, chi2 must follow
         if not msgs:
             kind_m = kind if case["edge"] == "odo" else I.POINT_OF[kind]
@@ -325,6 +369,11 @@ def _eval_inner(case):
         return msgs, r, True, 1 + ne, ["biggraph"]
     if t == "graph":
         g, edges, specs = _graph_alphabet(case["seed"], case["edges"])
+        if case.get("osign"):
+            for k, (ed, (et, kind, d)) in enumerate(zip(edges, specs)):
+                if case["osign"] == "neg" or k % 2 == 0:
+                    d["om"] = [[-x for x in r_] for r_ in d["om"]]
+                    ed.information = -np.asarray(ed.information)
         fx = case.get("fixed", "none")
         for k, v in enumerate(I.graph_vertices(g)):
             v.fixed = (fx == "all") or (fx == "alt" and k % 2 == 0)
@@ -349,7 +398,7 @@ def _eval_inner(case):
             msgs.append("Graph.calc_chi2 = %.17g but the sum of the reference edge chi2 over the multiset %r is %.17g" % (got, case["edges"], tot))
         if abs(got - own) > 1e-12 * (1.0 + mag):
             msgs.append("Graph.calc_chi2 = %.17g differs from the sum of its edges' calc_chi2 %.17g" % (got, own))
-        return msgs, r, len(case["edges"]) > 1, 1 + len(edges), (["graph:parallel"] if len(set(case["edges"])) < len(case["edges"]) else []) + (["graph:fixed_vertices"] if fx != "none" else [])
+        return msgs, r, len(case["edges"]) > 1, 1 + len(edges), (["graph:parallel"] if len(set(case["edges"])) < len(case["edges"]) else []) + (["graph:fixed_vertices"] if fx != "none" else []) + (["graph:nonpositive_information"] if case.get("osign") else [])
     if t == "consistency":
         kind = case["kind"]
         p1, p2 = _stored(kind, case["p1"]), _stored(kind, case["p2"])
